@@ -577,10 +577,26 @@ def shard(args):
     return agg
 
 
+def named_args_shard(args):
+    """Every argument bound by name (reversed order, and positional-then-named) must give what the positional call gives:
+    documented parameter names, driver/stdparams.py."""
+    import stdparams
+    from tablecheck import run_cases as _run_cases
+    agg = Agg()
+    ev = Ev(agg)
+    try:
+        _run_cases(agg, ev, stdparams.named_cases(['parseInt', 'base64', 'manifestJsonEx', 'manifestYamlDoc']))
+    finally:
+        ev.close()
+    return agg
+
+
 def run(tier, seed):
     t0 = time.time()
     quick = tier != "thorough"
     total = Agg()
+    for a in common.pmap(named_args_shard, [(seed,)]):
+        total.merge(a)
     scale = 1 if quick else 60
     shards = []
     for i in range(16):
@@ -606,6 +622,6 @@ def run(tier, seed):
             "correctly rounded, parseYaml == parseJson, non-JSON number texts rejected; JSON white space accepted and 19 other blanks / "
             "format characters rejected at every position between tokens and after the value; every pairing of high / low / non-surrogate "
             "escapes (value or error, never a crash); escapeStringJson / escapeStringPython exactly as upstream defines them for every code "
-            "point up to U+00A1. distinct_nontrivial = distinct (family, source) pairs compared.")
+            "point up to U+00A1. documented parameter names: every argument bound by name (reversed order, and positional-then-named) gives what the positional call gives (driver/stdparams.py). distinct_nontrivial = distinct (family, source) pairs compared.")
     return common.finish(PROP, tier, seed, total, rule, t0,
                          assumptions=["Python hashlib/base64/codecs/shlex/ast are correct", "lone surrogate escapes are excluded from parseJson accept/reject comparison"])
